@@ -22,16 +22,22 @@ def main():
              "label": "3 proxies (2 NAT x 3 loads) x 1 client: " + U},
             {"harness": "c03", "cfg": {"P": "2", "C": "2", "pnat": "3", "loads": "2", "cnat": "3"}, "budget_s": 40,
              "label": "2 proxies x 2 concurrent clients: " + U},
+            {"harness": "c03", "cfg": {"P": "3", "C": "1", "pnat": "2", "loads": "3", "cnat": "2", "dup": "1"}, "budget_s": 30,
+             "label": "3 proxies x 1 client, the last proxy optionally polling under the first one's (still pending) session id: " + U},
+            {"harness": "c03", "cfg": {"P": "2", "C": "2", "pnat": "3", "loads": "2", "cnat": "3", "dup": "1"}, "budget_s": 30,
+             "label": "2 proxies (optionally one session id) x 2 clients: " + U},
         ]
-        total = 100
+        total = 150
     else:
         passes = [
             {"harness": "c03", "cfg": {"P": "2", "C": "1"}, "budget_s": 100, "label": "2 proxies x 1 client, full alphabets: " + U},
             {"harness": "c03", "cfg": {"P": "3", "C": "1", "pnat": "4", "loads": "3", "cnat": "3"}, "budget_s": 250, "label": "3 proxies x 1 client: " + U},
             {"harness": "c03", "cfg": {"P": "2", "C": "2"}, "budget_s": 250, "label": "2 proxies x 2 clients, full alphabets: " + U},
             {"harness": "c03", "cfg": {"P": "3", "C": "2", "pnat": "3", "loads": "2", "cnat": "3"}, "budget_s": 250, "label": "3 proxies x 2 clients: " + U},
+            {"harness": "c03", "cfg": {"P": "3", "C": "1", "pnat": "4", "loads": "3", "cnat": "3", "dup": "1"}, "budget_s": 200, "label": "3 proxies x 1 client, optionally a repeated session id: " + U},
+            {"harness": "c03", "cfg": {"P": "3", "C": "2", "pnat": "3", "loads": "2", "cnat": "3", "dup": "1"}, "budget_s": 250, "label": "3 proxies x 2 clients, optionally a repeated session id: " + U},
         ]
-        total = 900
+        total = 1300
     summary, tot, samples, exh = sched.run_passes(rep, binary, passes, total)
     sched.sched_coverage(rep, summary, tot, samples, exh)
     rep.assumptions += [
